@@ -5,7 +5,7 @@ under /verif/seeded/<seed id>/ with the confirmation record. Nothing is left in 
 import json, os, shutil, subprocess, sys, time
 src, sid = sys.argv[1], sys.argv[2]
 wt = f"/tmp/confirm_{sid}"
-env = dict(os.environ, CARGO_NET_OFFLINE="true", CARGO_TARGET_DIR="/tmp/confirm_target")
+env = dict(os.environ, CARGO_NET_OFFLINE="true", CARGO_TARGET_DIR=f"/tmp/confirm_target_{sid}")
 def sh(cmd, cwd=None, timeout=1800):
     p = subprocess.run(cmd, cwd=cwd, shell=True, env=env, stdout=subprocess.PIPE, stderr=subprocess.STDOUT, text=True, timeout=timeout)
     return p.returncode, p.stdout
@@ -30,6 +30,7 @@ try:
     rec["demo_output_with_patch"] = out1[-600:]
 finally:
     subprocess.run(f"git -C /repo worktree remove --force {wt}", shell=True)
+    shutil.rmtree(f"/tmp/confirm_target_{sid}", ignore_errors=True)
 print(json.dumps({k: v for k, v in rec.items() if k != "demo_output_with_patch"}))
 good = all(rec.get(k) for k in ("patch_applies", "suite_green_with_patch", "demo_fails_with_patch", "demo_passes_without_patch"))
 if good:
